@@ -79,6 +79,16 @@ pub fn render_node(
 
     transform = transform.pre_translate(-bbox.x(), -bbox.y());
 
+    // `bbox` is an absolute one, therefore the node has to be rendered
+    // under the transforms of its ancestors.
+    let ancestors_ts = match node {
+        usvg::Node::Group(ref g) => g
+            .abs_transform()
+            .pre_concat(g.transform().invert()?),
+        _ => node.abs_transform(),
+    };
+    transform = transform.pre_concat(ancestors_ts);
+
     let ctx = render::Context { max_bbox };
     render::render_node(node, &ctx, transform, pixmap);
 
